@@ -92,6 +92,7 @@ type RunCfg struct {
 	Forger     bool    `json:"forger"`
 	Relabel    bool    `json:"part_relabeller"`
 	NoisePct   int     `json:"noise_pct"`
+	TxPct      int     `json:"tx_pct"`
 	Filters    bool    `json:"message_class_filters"`
 	EvForger   bool    `json:"evidence_forger"`
 }
@@ -137,6 +138,11 @@ type Sim struct {
 	filters    []*classFilter
 	healAt     time.Duration
 	cleanStop  bool
+	userNonce      map[int]uint64
+	txSubmitted    int
+	txUser         int
+	contracts      []common.Address
+	pendingCreates [][2]interface{}
 	violBase   int
 
 	steps     int
@@ -480,6 +486,7 @@ func (s *Sim) loop(goal func() bool, maxSim time.Duration) {
 		s.maybePartition()
 		s.maybeFilter()
 		s.learnAll()
+		s.workloadStep()
 		s.gossip()
 		s.adversaryStep()
 		now := s.now()
